@@ -13,6 +13,12 @@ AllCfgs == {[n |-> n, kc |-> kc, dl |-> dl, hdr |-> h, ksz |-> 2, nw |-> nw] :
 OneCfg == {[n |-> NMax, kc |-> 2, dl |-> 1, hdr |-> FALSE, ksz |-> 1, nw |-> WMax]}
 \* the schedule is a history variable: hidden from the state space of the exhaustive run
 NoSched == <<cfg, phase, cap, reader, pc, held, writes>>
+\* refinement: once every worker has left, the record ordinals read in increasing file offset are 0,1,..,n-1
+RowsByOffset == LET recs == {x \in writes : x.n >= 0}
+                    k == Cardinality(recs)
+                IN [i \in 1..k |-> (CHOOSE x \in recs : Cardinality({y \in recs : y.off < x.off}) = i - 1).n]
+Abs == INSTANCE OrderedRows WITH n <- cfg.n, rows <- IF Done THEN RowsByOffset ELSE <<>>, complete <- Done
+RefinesOrderedRows == Abs!Spec
 \* one line per complete behaviour
 SchedOut == Done => PrintT(<<"SCHED", ToJson(sched)>>)
 =============================================================================
